@@ -17,7 +17,7 @@ import (
 // fetchAndReschedule and executeAndReschedule the ordered skeleton of calls on the queue, the
 // locker, the trigger, the clock and Reset (from which the Coq side derives the lock discipline
 // and the orderings). Anything with an unexpected shape makes the translator fail.
-func init() { sections["sched"] = genSched }
+func init() { sections["sched-api"] = genSchedAPI; sections["sched-fetch"] = genSchedFetch }
 
 const maxInt64 = int64(1<<63 - 1)
 
@@ -326,7 +326,7 @@ type vbranch struct {
 	valid, misfire, nonb bool
 }
 
-func genSched(o *out) {
+func genSchedAPI(o *out) {
 	sf := parse("quartz/scheduler.go")
 	qf := parse("quartz/queue.go")
 	tf := parse("quartz/trigger.go")
@@ -338,9 +338,7 @@ func genSched(o *out) {
 	o.line("Open Scope Z_scope.")
 	o.line("Open Scope string_scope.")
 	o.line("")
-	o.line("Inductive cmp_op := OpGe | OpGt | OpLe | OpLt | OpEq | OpNe.")
 	o.line("Inductive sentinel := SIllegalArgument | SJobAlreadyExists | SJobNotFound | SJobIsSuspended | SJobIsActive | SQueueEmpty | STriggerExpired | SOther.")
-	o.line("Inductive prev_src := PrevNow | PrevPrio.")
 	o.line("")
 	o.line("(* math.MaxInt64 *)")
 	o.line("Definition go_MaxInt64 : Z := %s.", coqZ(maxInt64))
@@ -373,6 +371,159 @@ func genSched(o *out) {
 	o.line("(* NewStdScheduler: default SchedulerConfig *)")
 	o.line("Definition default_outdated_threshold_ns : Z := %s.", coqZ(ot))
 	o.line("Definition default_retry_interval_ns : Z := %s.", coqZ(ri))
+	o.line("")
+
+	// ---- API sites ----
+	sj := sf.method("StdScheduler", "ScheduleJob")
+	pj := sf.method("StdScheduler", "PauseJob")
+	rj := sf.method("StdScheduler", "ResumeJob")
+	dj := sf.method("StdScheduler", "DeleteJob")
+	gj := sf.method("StdScheduler", "GetScheduledJob")
+	gk := sf.method("StdScheduler", "GetJobKeys")
+	cj := sf.method("StdScheduler", "Clear")
+
+	// ScheduleJob: nextRunTime := int64(math.MaxInt64); if !jobDetail.opts.Suspended { nextRunTime, err = trigger.NextFireTime(NowNano()) ... }
+	var park ast.Expr
+	guard := false
+	for _, st := range sj.Body.List {
+		switch x := st.(type) {
+		case *ast.AssignStmt:
+			if x.Tok == token.DEFINE && len(x.Lhs) == 1 && callName(x.Lhs[0]) == "nextRunTime" {
+				park = x.Rhs[0]
+			}
+		case *ast.IfStmt:
+			if exprStr(sf.fset, x.Cond) == "!jobDetail.opts.Suspended" {
+				for _, c := range callsIn(x.Body.List) {
+					if strings.HasSuffix(c.name, ".NextFireTime") {
+						guard = true
+					}
+				}
+			}
+		}
+	}
+	if park == nil {
+		die("ScheduleJob: `nextRunTime := ...` not found")
+	}
+	if exprStr(sf.fset, priorityOf(sf, sj, "toSchedule")) != "nextRunTime" {
+		die("ScheduleJob: toSchedule.priority is not nextRunTime")
+	}
+	// every NextFireTime call in ScheduleJob must be inside the guard (or the guard is absent)
+	nftCalls := 0
+	for _, c := range callsIn(sj.Body.List) {
+		if strings.HasSuffix(c.name, ".NextFireTime") {
+			nftCalls++
+		}
+	}
+	if nftCalls != 1 {
+		die("ScheduleJob: expected exactly one NextFireTime call")
+	}
+	o.line("(* ---- priorities and trigger arguments at the API sites ---- *)")
+	o.line("Definition schedule_park_priority : Z := %s.   (* nextRunTime := int64(math.MaxInt64) *)", coqZ(sf.schedInt(park)))
+	o.line("Definition schedule_trigger_guard_not_suspended : bool := %s.  (* if !jobDetail.opts.Suspended { ... NextFireTime ... } *)", coqBool(guard))
+	o.line("Definition pause_park_priority : Z := %s.      (* paused.priority *)", coqZ(sf.schedInt(priorityOf(sf, pj, "paused"))))
+	o.line("Definition pause_sets_suspended : bool := %s.                  (* job.JobDetail().opts.Suspended = true *)", suspendedAssign(sf, pj))
+	o.line("Definition resume_sets_suspended : bool := %s.                (* job.JobDetail().opts.Suspended = false *)", suspendedAssign(sf, rj))
+	rp := exprStr(sf.fset, priorityOf(sf, rj, "resumed"))
+	isTrig := false
+	if rp == "nextRunTime" {
+		cs := assignedFrom(rj, "nextRunTime")
+		isTrig = len(cs) == 1 && strings.HasSuffix(callName(cs[0].Fun), ".NextFireTime")
+	} else if rp != "job.NextRunTime()" {
+		die("ResumeJob: resumed.priority is neither nextRunTime nor job.NextRunTime()")
+	}
+	o.line("Definition resume_priority_is_trigger_result : bool := %s.     (* resumed.priority = nextRunTime (the NextFireTime result) *)", coqBool(isTrig))
+	o.line("")
+
+	// ---- sentinels ----
+	var argS []string
+	emptyName := false
+	for _, st := range sj.Body.List {
+		ifs, ok := st.(*ast.IfStmt)
+		if !ok || len(ifs.Body.List) != 1 {
+			continue
+		}
+		ret, ok := ifs.Body.List[0].(*ast.ReturnStmt)
+		if !ok || len(ret.Results) != 1 {
+			continue
+		}
+		c, ok := ret.Results[0].(*ast.CallExpr)
+		if !ok || callName(c.Fun) != "newIllegalArgumentError" {
+			continue
+		}
+		cond := exprStr(sf.fset, ifs.Cond)
+		want := []string{"jobDetail==nil", "jobDetail.jobKey==nil", "jobDetail.jobKey.name==\"\"", "trigger==nil"}
+		if len(argS) >= len(want) || cond != want[len(argS)] {
+			die("ScheduleJob: unexpected argument check %s", cond)
+		}
+		if cond == "jobDetail.jobKey.name==\"\"" {
+			emptyName = true
+		}
+		argS = append(argS, errSentinel(ef, wraps, ret.Results[0]))
+	}
+	if len(argS) != 4 {
+		die("ScheduleJob: expected four argument checks, found %d", len(argS))
+	}
+	o.line("(* ---- sentinels ---- *)")
+	o.line("Definition schedule_arg_sentinels : list sentinel := [%s].", strings.Join(argS, "; "))
+	o.line("Definition schedule_checks_empty_name : bool := %s.            (* jobDetail.jobKey.name == \"\" *)", coqBool(emptyName))
+	o.line("Definition get_nilkey_sentinel : sentinel := %s.", firstIfReturnErr(sf, ef, wraps, gj, "jobKey==nil"))
+	o.line("Definition delete_nilkey_sentinel : sentinel := %s.", firstIfReturnErr(sf, ef, wraps, dj, "jobKey==nil"))
+	o.line("Definition pause_nilkey_sentinel : sentinel := %s.", firstIfReturnErr(sf, ef, wraps, pj, "jobKey==nil"))
+	o.line("Definition resume_nilkey_sentinel : sentinel := %s.", firstIfReturnErr(sf, ef, wraps, rj, "jobKey==nil"))
+	o.line("Definition pause_suspended_sentinel : sentinel := %s.   (* if job.JobDetail().opts.Suspended *)", ifReturnErr(sf, ef, wraps, pj, "job.JobDetail().opts.Suspended"))
+	o.line("Definition resume_active_sentinel : sentinel := %s.        (* if !job.JobDetail().opts.Suspended *)", ifReturnErr(sf, ef, wraps, rj, "!job.JobDetail().opts.Suspended"))
+	qPush := qf.method("jobQueue", "Push")
+	replaceGuard := false
+	ast.Inspect(qPush.Body, func(n ast.Node) bool {
+		if ifs, ok := n.(*ast.IfStmt); ok && exprStr(qf.fset, ifs.Cond) == "job.JobDetail().opts.Replace" {
+			for _, c := range callsIn(ifs.Body.List) {
+				if c.name == "heap.Remove" {
+					replaceGuard = true
+				}
+			}
+		}
+		return true
+	})
+	o.line("Definition queue_push_exists_sentinel : sentinel := %s.", lastReturnErr(qf, ef, wraps, qPush))
+	o.line("Definition queue_push_replace_guard : bool := %s.                  (* if job.JobDetail().opts.Replace { heap.Remove; break } *)", coqBool(replaceGuard))
+	o.line("Definition queue_get_missing_sentinel : sentinel := %s.", lastReturnErr(qf, ef, wraps, qf.method("jobQueue", "Get")))
+	o.line("Definition queue_remove_missing_sentinel : sentinel := %s.", lastReturnErr(qf, ef, wraps, qf.method("jobQueue", "Remove")))
+	o.line("Definition queue_pop_empty_sentinel : sentinel := %s.", lastReturnErr(qf, ef, wraps, qf.method("jobQueue", "Pop")))
+	o.line("Definition queue_head_empty_sentinel : sentinel := %s.", lastReturnErr(qf, ef, wraps, qf.method("jobQueue", "Head")))
+	ro := tf.method("RunOnceTrigger", "NextFireTime")
+	lastRet, ok := ro.Body.List[len(ro.Body.List)-1].(*ast.ReturnStmt)
+	if !ok || len(lastRet.Results) != 2 {
+		die("RunOnceTrigger.NextFireTime: unexpected final return")
+	}
+	o.line("Definition trigger_runonce_expired_sentinel : sentinel := %s.", errSentinel(ef, wraps, lastRet.Results[1]))
+	o.line("")
+
+	// ---- skeletons ----
+	o.line("(* ---- ordered skeleton of each API body: calls on the queue, the locker, the trigger, the clock, Reset,")
+	o.line("        error constructors, and assignments to opts.Suspended (logging and accessors left out) ---- *)")
+	emit := func(name string, fd *ast.FuncDecl) {
+		o.line("Definition calls_%s : list string :=", name)
+		o.line("  %s.", coqStrList(skeleton(sf, fd)))
+	}
+	emit("ScheduleJob", sj)
+	emit("GetJobKeys", gk)
+	emit("GetScheduledJob", gj)
+	emit("DeleteJob", dj)
+	emit("PauseJob", pj)
+	emit("ResumeJob", rj)
+	emit("Clear", cj)
+}
+
+func genSchedFetch(o *out) {
+	sf := parse("quartz/scheduler.go")
+
+	o.line("From Coq Require Import ZArith String List.")
+	o.line("Import ListNotations.")
+	o.line("Open Scope Z_scope.")
+	o.line("Open Scope string_scope.")
+	o.line("")
+	o.line("Inductive cmp_op := OpGe | OpGt | OpLe | OpLt | OpEq | OpNe.")
+	o.line("Inductive prev_src := PrevNow | PrevPrio.")
 	o.line("")
 
 	// ---- validateJob ----
@@ -559,67 +710,9 @@ func genSched(o *out) {
 	o.line("Definition validate_clock_reads : nat := %d.", clockReads)
 	o.line("")
 
-	// ---- API sites ----
-	sj := sf.method("StdScheduler", "ScheduleJob")
-	pj := sf.method("StdScheduler", "PauseJob")
-	rj := sf.method("StdScheduler", "ResumeJob")
-	dj := sf.method("StdScheduler", "DeleteJob")
-	gj := sf.method("StdScheduler", "GetScheduledJob")
-	gk := sf.method("StdScheduler", "GetJobKeys")
-	cj := sf.method("StdScheduler", "Clear")
 	fr := sf.method("StdScheduler", "fetchAndReschedule")
 	er := sf.method("StdScheduler", "executeAndReschedule")
-
-	// ScheduleJob: nextRunTime := int64(math.MaxInt64); if !jobDetail.opts.Suspended { nextRunTime, err = trigger.NextFireTime(NowNano()) ... }
-	var park ast.Expr
-	guard := false
-	for _, st := range sj.Body.List {
-		switch x := st.(type) {
-		case *ast.AssignStmt:
-			if x.Tok == token.DEFINE && len(x.Lhs) == 1 && callName(x.Lhs[0]) == "nextRunTime" {
-				park = x.Rhs[0]
-			}
-		case *ast.IfStmt:
-			if exprStr(sf.fset, x.Cond) == "!jobDetail.opts.Suspended" {
-				for _, c := range callsIn(x.Body.List) {
-					if strings.HasSuffix(c.name, ".NextFireTime") {
-						guard = true
-					}
-				}
-			}
-		}
-	}
-	if park == nil {
-		die("ScheduleJob: `nextRunTime := ...` not found")
-	}
-	if exprStr(sf.fset, priorityOf(sf, sj, "toSchedule")) != "nextRunTime" {
-		die("ScheduleJob: toSchedule.priority is not nextRunTime")
-	}
-	// every NextFireTime call in ScheduleJob must be inside the guard (or the guard is absent)
-	nftCalls := 0
-	for _, c := range callsIn(sj.Body.List) {
-		if strings.HasSuffix(c.name, ".NextFireTime") {
-			nftCalls++
-		}
-	}
-	if nftCalls != 1 {
-		die("ScheduleJob: expected exactly one NextFireTime call")
-	}
-	o.line("(* ---- priorities and trigger arguments at the API sites ---- *)")
-	o.line("Definition schedule_park_priority : Z := %s.   (* nextRunTime := int64(math.MaxInt64) *)", coqZ(sf.schedInt(park)))
-	o.line("Definition schedule_trigger_guard_not_suspended : bool := %s.  (* if !jobDetail.opts.Suspended { ... NextFireTime ... } *)", coqBool(guard))
-	o.line("Definition pause_park_priority : Z := %s.      (* paused.priority *)", coqZ(sf.schedInt(priorityOf(sf, pj, "paused"))))
-	o.line("Definition pause_sets_suspended : bool := %s.                  (* job.JobDetail().opts.Suspended = true *)", suspendedAssign(sf, pj))
-	o.line("Definition resume_sets_suspended : bool := %s.                (* job.JobDetail().opts.Suspended = false *)", suspendedAssign(sf, rj))
-	rp := exprStr(sf.fset, priorityOf(sf, rj, "resumed"))
-	isTrig := false
-	if rp == "nextRunTime" {
-		cs := assignedFrom(rj, "nextRunTime")
-		isTrig = len(cs) == 1 && strings.HasSuffix(callName(cs[0].Fun), ".NextFireTime")
-	} else if rp != "job.NextRunTime()" {
-		die("ResumeJob: resumed.priority is neither nextRunTime nor job.NextRunTime()")
-	}
-	o.line("Definition resume_priority_is_trigger_result : bool := %s.     (* resumed.priority = nextRunTime (the NextFireTime result) *)", coqBool(isTrig))
+	o.line("(* ---- fetchAndReschedule / executeAndReschedule ---- *)")
 	fp := exprStr(sf.fset, priorityOf(sf, fr, "toSchedule"))
 	isExt := false
 	if fp == "nextRunTime" {
@@ -690,88 +783,11 @@ func genSched(o *out) {
 	o.line("Definition exec_dispatch_sites : nat := %d.                       (* blocking, worker pool, goroutine: each runs scheduled.JobDetail() *)", sites)
 	o.line("")
 
-	// ---- sentinels ----
-	var argS []string
-	emptyName := false
-	for _, st := range sj.Body.List {
-		ifs, ok := st.(*ast.IfStmt)
-		if !ok || len(ifs.Body.List) != 1 {
-			continue
-		}
-		ret, ok := ifs.Body.List[0].(*ast.ReturnStmt)
-		if !ok || len(ret.Results) != 1 {
-			continue
-		}
-		c, ok := ret.Results[0].(*ast.CallExpr)
-		if !ok || callName(c.Fun) != "newIllegalArgumentError" {
-			continue
-		}
-		cond := exprStr(sf.fset, ifs.Cond)
-		want := []string{"jobDetail==nil", "jobDetail.jobKey==nil", "jobDetail.jobKey.name==\"\"", "trigger==nil"}
-		if len(argS) >= len(want) || cond != want[len(argS)] {
-			die("ScheduleJob: unexpected argument check %s", cond)
-		}
-		if cond == "jobDetail.jobKey.name==\"\"" {
-			emptyName = true
-		}
-		argS = append(argS, errSentinel(ef, wraps, ret.Results[0]))
-	}
-	if len(argS) != 4 {
-		die("ScheduleJob: expected four argument checks, found %d", len(argS))
-	}
-	o.line("(* ---- sentinels ---- *)")
-	o.line("Definition schedule_arg_sentinels : list sentinel := [%s].", strings.Join(argS, "; "))
-	o.line("Definition schedule_checks_empty_name : bool := %s.            (* jobDetail.jobKey.name == \"\" *)", coqBool(emptyName))
-	o.line("Definition get_nilkey_sentinel : sentinel := %s.", firstIfReturnErr(sf, ef, wraps, gj, "jobKey==nil"))
-	o.line("Definition delete_nilkey_sentinel : sentinel := %s.", firstIfReturnErr(sf, ef, wraps, dj, "jobKey==nil"))
-	o.line("Definition pause_nilkey_sentinel : sentinel := %s.", firstIfReturnErr(sf, ef, wraps, pj, "jobKey==nil"))
-	o.line("Definition resume_nilkey_sentinel : sentinel := %s.", firstIfReturnErr(sf, ef, wraps, rj, "jobKey==nil"))
-	o.line("Definition pause_suspended_sentinel : sentinel := %s.   (* if job.JobDetail().opts.Suspended *)", ifReturnErr(sf, ef, wraps, pj, "job.JobDetail().opts.Suspended"))
-	o.line("Definition resume_active_sentinel : sentinel := %s.        (* if !job.JobDetail().opts.Suspended *)", ifReturnErr(sf, ef, wraps, rj, "!job.JobDetail().opts.Suspended"))
-	qPush := qf.method("jobQueue", "Push")
-	replaceGuard := false
-	ast.Inspect(qPush.Body, func(n ast.Node) bool {
-		if ifs, ok := n.(*ast.IfStmt); ok && exprStr(qf.fset, ifs.Cond) == "job.JobDetail().opts.Replace" {
-			for _, c := range callsIn(ifs.Body.List) {
-				if c.name == "heap.Remove" {
-					replaceGuard = true
-				}
-			}
-		}
-		return true
-	})
-	o.line("Definition queue_push_exists_sentinel : sentinel := %s.", lastReturnErr(qf, ef, wraps, qPush))
-	o.line("Definition queue_push_replace_guard : bool := %s.                  (* if job.JobDetail().opts.Replace { heap.Remove; break } *)", coqBool(replaceGuard))
-	o.line("Definition queue_get_missing_sentinel : sentinel := %s.", lastReturnErr(qf, ef, wraps, qf.method("jobQueue", "Get")))
-	o.line("Definition queue_remove_missing_sentinel : sentinel := %s.", lastReturnErr(qf, ef, wraps, qf.method("jobQueue", "Remove")))
-	o.line("Definition queue_pop_empty_sentinel : sentinel := %s.", lastReturnErr(qf, ef, wraps, qf.method("jobQueue", "Pop")))
-	o.line("Definition queue_head_empty_sentinel : sentinel := %s.", lastReturnErr(qf, ef, wraps, qf.method("jobQueue", "Head")))
-	ro := tf.method("RunOnceTrigger", "NextFireTime")
-	lastRet, ok := ro.Body.List[len(ro.Body.List)-1].(*ast.ReturnStmt)
-	if !ok || len(lastRet.Results) != 2 {
-		die("RunOnceTrigger.NextFireTime: unexpected final return")
-	}
-	o.line("Definition trigger_runonce_expired_sentinel : sentinel := %s.", errSentinel(ef, wraps, lastRet.Results[1]))
-	o.line("")
-
-	// ---- skeletons ----
-	o.line("(* ---- ordered skeleton of each body: calls on the queue, the locker, the trigger, the clock, Reset,")
-	o.line("        error constructors, and assignments to opts.Suspended (logging and accessors left out) ---- *)")
-	emit := func(name string, fd *ast.FuncDecl, drop ...string) {
-		sk := skeleton(sf, fd)
-		for _, d := range drop {
-			sk = dropItem(sk, d)
-		}
+	o.line("(* ---- ordered skeletons (see ParamsApi.v) ---- *)")
+	emit := func(name string, fd *ast.FuncDecl) {
 		o.line("Definition calls_%s : list string :=", name)
-		o.line("  %s.", coqStrList(sk))
+		o.line("  %s.", coqStrList(skeleton(sf, fd)))
 	}
-	emit("ScheduleJob", sj)
-	emit("GetJobKeys", gk)
-	emit("GetScheduledJob", gj)
-	emit("DeleteJob", dj)
-	emit("PauseJob", pj)
-	emit("ResumeJob", rj)
-	emit("Clear", cj)
 	emit("fetchAndReschedule", fr)
 	emit("executeAndReschedule", er)
 }
